@@ -51,6 +51,38 @@ Section Common.
   (** RealVecTraits<double>::min_accurate_sintheta() *)
   Definition min_acc : T := nQ 5 1000.
 
+  (** Two frozen copies of [Base.Vec3.rotate_raw]: [rotate_raw_old] is the code as
+      pinned (in the branch 0 < sintheta < min_acc, sinphi = sqrt(1 - cosphi^2)
+      drops the sign of rot[Y]); [rotate_raw_new] is the repaired formula
+      (cosphi, sinphi) = (x, y) / sqrt(x^2 + y^2).  [Base.Vec3.rotate_raw] is
+      convertible to one of them (CommonProofs.base_rotate_is). *)
+  Definition rotate_raw_old (min_acc : T) (dir rot : vec3 T) : vec3 T :=
+    let sintheta := nsqrt (n1 - nsq (vz rot)) in
+    let '(cosphi, sinphi) :=
+      if min_acc <=? sintheta then
+        let inv := n1 / sintheta in (vx rot * inv, vy rot * inv)
+      else if n0 <? sintheta then
+        let c := vx rot / nsqrt (nsq (vx rot) + nsq (vy rot)) in (c, nsqrt (n1 - nsq c))
+      else (n1, n0) in
+    let a := vz rot * vx dir + sintheta * vz dir in
+    V3 (a * cosphi - sinphi * vy dir)
+       (a * sinphi + cosphi * vy dir)
+       (- sintheta * vx dir + vz rot * vz dir).
+  Definition rotate_raw_new (min_acc : T) (dir rot : vec3 T) : vec3 T :=
+    let sintheta := nsqrt (n1 - nsq (vz rot)) in
+    let '(cosphi, sinphi) :=
+      if min_acc <=? sintheta then
+        let inv := n1 / sintheta in (vx rot * inv, vy rot * inv)
+      else if n0 <? sintheta then
+        let inv := n1 / nsqrt (nsq (vx rot) + nsq (vy rot)) in (vx rot * inv, vy rot * inv)
+      else (n1, n0) in
+    let a := vz rot * vx dir + sintheta * vz dir in
+    V3 (a * cosphi - sinphi * vy dir)
+       (a * sinphi + cosphi * vy dir)
+       (- sintheta * vx dir + vz rot * vz dir).
+  Definition rotate_old (min_acc : T) (dir rot : vec3 T) := make_unit_vector (rotate_raw_old min_acc dir rot).
+  Definition rotate_new (min_acc : T) (dir rot : vec3 T) := make_unit_vector (rotate_raw_new min_acc dir rot).
+
   (** ExitingDirectionSampler{costheta, direction}(rng):
       rotate(from_spherical(costheta, U(0, 2 pi)), direction) *)
   Definition exiting_direction (costheta : T) (dir : vec3 T) : M (vec3 T) :=
